@@ -21,7 +21,7 @@ CN_KEYS = ['classname', 'classname', 'Classname', 'CLASSNAME']
 TN_KEYS = ['targetname', 'targetname', 'TargetName', 'TARGETNAME']
 OTHER_KEYS = ['origin', 'Origin', 'x']
 QUERIES = ['a', 'A', 'ab', 'AB', 'a*', 'A*', '*', '', 'a1', 'worldspawn', 'WORLDSPAWN', 'ab*', 'info_null', 'b', 'ß', 'S*']
-QUERIES_SH = ['a', 'A*', 'ab', 'worldspawn', '']
+QUERIES_SH = ['a', 'A*', 'ab', 'worldspawn', '', 'ß']
 ADD_FORMS = ['gen', 'iter', 'map', 'list', 'tuple']      # how the iterable is handed to VMF.add_ents
 MAX_OBJS = 6
 # functions that are modelled by hand only (no generated shape): a change escalates the correspondence budget.
@@ -525,11 +525,12 @@ def run_case(ops) -> tuple[list, list, list]:
             for m in range(len(w.maps)):
                 for q in QUERIES:
                     try:
-                        got = sorted({w.eid(m, e) for e in itertools.islice(w.maps[m].search(q), 200)})
+                        multi = sorted(w.eid(m, e) for e in itertools.islice(w.maps[m].search(q), 200))
+                        got = sorted(set(multi))
                     except Exception as exc:   # noqa: BLE001
                         RAISED.append((ops, f'search({q!r}): {type(exc).__name__}: {exc}'))
-                        got = [-1]
-                    queries.append((m, q, got))
+                        got = multi = [-1]
+                    queries.append((m, q, got, multi))
     except Hang as exc:
         HANGS[0] += 1
         RAISED.append((ops, f'Hang: {exc}'))
@@ -539,12 +540,16 @@ def run_case(ops) -> tuple[list, list, list]:
 PRE_SHAPES = r"""
 Definition sq2 (s : list nat) (q : str) (st : mstate) : bool :=
   eqb_ln (sorted_elems (search_sh cf gen_search_shape q st).1) s.
+(* multiplicities: the implementation's yields (sorted, with repetitions) against search_count of the generated program *)
+Fixpoint count_nat (x : nat) (l : list nat) : nat := match l with [] => 0 | y :: r => (if Nat.eqb x y then 1 else 0) + count_nat x r end.
+Definition sq3 (ys : list nat) (q : str) (st : mstate) : bool :=
+  forallb (fun e => Nat.eqb (count_nat e ys) (search_count cf gen_search_shape q e st)) (seq 0 (nobj st)).
 """
 
 
 def corr(ck: Ck, escalate: bool = False, shapes: bool = False) -> None:
     # quick tier with a broken tie: a larger random budget, but the exhaustive short histories stay in thorough
-    n = 2500 if ck.thorough else (600 if (escalate or ck.tie_broken) else 200)
+    n = 2500 if ck.thorough else (600 if (escalate or ck.tie_broken) else 170)
     cases = []
     RAISED.clear()
     CF_TABLES.clear()
@@ -600,10 +605,10 @@ def corr(ck: Ck, escalate: bool = False, shapes: bool = False) -> None:
             lits.append('[' + '; '.join(f'({coq_wop(tab, f)}, {m}, {coq_exp(tab, err, obs)})' for f, m, err, obs in steps) + ']')
             flat_ops = '[' + '; '.join(coq_wop(tab, f) for f, _m, _e, _o in steps) + ']'
             qs = ' && '.join(f'match w !! {m} with Some st => sq {_c_nats(r)} {_strtab(tab, q)} st | None => false end'
-                             for m, q, r in queries)
+                             for m, q, r, _ in queries)
             if shapes:   # VMF.search as written (generated program over the defaultdict semantics), 5 of the queries
-                qs2 = ' && '.join(f'match w !! {m} with Some st => sq2 {_c_nats(r)} {_strtab(tab, q)} st | None => false end'
-                                  for m, q, r in queries if q in QUERIES_SH)
+                qs2 = ' && '.join(f'match w !! {m} with Some st => sq2 {_c_nats(r)} {_strtab(tab, q)} st && sq3 {_c_nats(ys)} {_strtab(tab, q)} st | None => false end'
+                                  for m, q, r, ys in queries if q in QUERIES_SH)
                 q2lits.append(f'(let w := wrun cf {flat_ops} w2 in {qs2})')
             qlits.append(f'(let w := wrun cf {flat_ops} w2 in {qs})')
             if iters:
@@ -625,7 +630,7 @@ def corr(ck: Ck, escalate: bool = False, shapes: bool = False) -> None:
                  '[' + '; '.join(ilits) + ']',
                  '[' + '; '.join(q2lits) + ']',
                  'tab_non_ascii cf_tab && tab_closed cf_tab']
-        imports = IMPORTS + (['SV.SM.IndexShapes', 'SV.Gen.IndexShapes_gen'] if shapes else [])
+        imports = IMPORTS + (['SV.SM.IndexShapes', 'SV.SM.IndexSearchCount', 'SV.Gen.IndexShapes_gen'] if shapes else [])
         return lo, ck.coq_eval(imports, exprs, name=f'index{lo}', preamble=pre, timeout=900)
 
     with ThreadPoolExecutor(max_workers=6) as ex:
@@ -672,7 +677,7 @@ def corr(ck: Ck, escalate: bool = False, shapes: bool = False) -> None:
         # make_unique / iteration left behind in the implementation only)
         ck.obligation('correspondence:search_as_written', not bad_q2,
                       f'{len(cases)} final worlds x {len(QUERIES_SH)} queries per map, search_sh gen_search_shape '
-                      f'(the program read off VMF.search) vs VMF.search: {len(bad_q2)} disagreements')
+                      f'(the program read off VMF.search) vs VMF.search, as sets and — search_count — with the multiplicity of every entity: {len(bad_q2)} disagreements')
         if bad_q2:
             ck.tie_broken.append('correspondence search as written (SM/IndexShapes.v sp_run vs VMF.search)')
     if RAISED:
@@ -725,7 +730,7 @@ def exhaustive_short():
 
 
 # ------------------------------------------------------------------------------------------------ source shapes
-SHAPE_IMPORTS = ['SV.SM.IndexModel', 'SV.SM.IndexShapes', 'SV.SM.IndexMaint', 'SV.SM.IndexRemove', 'SV.Gen.IndexShapes_gen']
+SHAPE_IMPORTS = ['SV.SM.IndexModel', 'SV.SM.IndexShapes', 'SV.SM.IndexMaint', 'SV.SM.IndexRemove', 'SV.SM.IndexSearchCount', 'SV.Gen.IndexShapes_gen']
 SHAPE_OBLIGATIONS = {
     # Entity.__setitem__ (theorem c07_setitem_as_written: all five => the code is the model's set_item)
     'setitem_lookup_is_case_insensitive': 'ss_match_ok gen_setitem_shape',
@@ -740,6 +745,9 @@ SHAPE_OBLIGATIONS = {
     'search_star_branch_yields_exactly_the_prefix_scan': 'star_ok (sh_star gen_search_shape)',
     'search_exact_branch_yields_name_and_class_matches': 'exact_ok (sh_exact gen_search_shape)',
     'search_scans_a_snapshot_of_the_items': 'gen_search_scans_snapshot',
+    # round 4 (theorem c07_search_multiplicity): no part is yielded twice on any path
+    'search_star_branch_yields_every_match_once': 'star_once (sh_star gen_search_shape)',
+    'search_exact_branch_yields_the_name_matches_once_and_the_class_matches_once': 'exact_once (sh_exact gen_search_shape)',
     # Entity.__setitem__, the maintenance part after the lookup loop (theorem c07_setitem_maintenance_as_written)
     'setitem_classname_branch_rekeys_by_class': 'maint_classname_ok gen_setitem_maint',
     'setitem_worldspawn_guard_error_path_restores_the_index': 'maint_guard_error_ok gen_setitem_maint',
